@@ -11,7 +11,7 @@ from .c07 import mk
 from .common import MC, P, RecTransport, loop_clean, new_loop, sd_entries_sent, stub_uniform
 
 PROPERTY = "C17"
-BUDGET_S = {"quick": 900, "thorough": 3000}
+BUDGET_S = {"quick": 900, "thorough": 7200}
 STUBS = ["VirtualLoop with synchronous numeric getaddrinfo (no executor thread)", "struct/bytes/bytearray lowering", "random.uniform not drawn (zero initial delay) in the SD variant"]
 ASSUMPTIONS = [
     "at most one live subscription per endpoint and eventgroup (set semantics of the subscriber table)",
